@@ -49,6 +49,7 @@ type state struct {
 	c        *core.Child
 	reported map[string]bool // signatures already sent as violation records by this child
 	m        *Model          // current case
+	caseID   string
 	exec     string          // current execution label
 	// per-case
 	sawPanic, sawInconsistent bool
@@ -65,6 +66,7 @@ func run(c *core.Child) {
 		if !c.Begin(id) {
 			continue
 		}
+		st.caseID = id
 		st.runCase(i)
 	}
 }
@@ -74,6 +76,12 @@ func run(c *core.Child) {
 // child; without this the frequent signatures would crowd out the rare ones).
 func (st *state) report(sig, msg string, extra map[string]interface{}) {
 	st.c.Feature("sig:" + sig)
+	if trace := os.Getenv("C11_TRACE"); trace != "" {
+		if f, err := os.OpenFile(trace, os.O_APPEND|os.O_CREATE|os.O_WRONLY, 0o644); err == nil {
+			fmt.Fprintf(f, "b%d %s %s | %s | %v\n", st.c.Batch, st.caseID, sig, st.exec, st.m.Corruptions)
+			f.Close()
+		}
+	}
 	if st.reported[sig] {
 		return
 	}
@@ -377,7 +385,7 @@ func (st *state) runCase(i int) {
 		ncorr = 2
 	}
 	for k := 0; k < ncorr; k++ {
-		corrupt(m, r)
+		corrupt(m, r, ncorr == 1)
 	}
 	st.m = m
 	st.sawPanic, st.sawInconsistent = false, false
